@@ -275,6 +275,18 @@ func (v verifier) doVerifyVP(vcVerifier Verifier, presentation vc.VerifiablePres
 		return nil, newVerificationError("presentation holder must equal credential subject")
 	}
 
+	// A presentation without credentials has no credential subject to compare the holder with:
+	// the holder must then be the signer of the presentation, otherwise anyone could present as any holder.
+	if subjectDID == nil && presentation.Holder != nil {
+		signerDID, err := credential.PresentationSigner(presentation)
+		if err != nil {
+			return nil, toVerificationError(err)
+		}
+		if presentation.Holder.String() != signerDID.String() {
+			return nil, newVerificationError("presentation holder must equal presentation signer")
+		}
+	}
+
 	// check signature
 	err = v.signatureVerifier.VerifyVPSignature(presentation, validAt)
 	if err != nil {
